@@ -1,4 +1,4 @@
-//go:build verif && (all || c16 || c17 || c39)
+//go:build verif && (all || c16 || c17 || c18 || c39)
 
 package main
 
@@ -77,6 +77,7 @@ func c16NewWorld() *c16World {
 	cfg.Agent.LogLevel = "error"
 	cfg.Exit.Enabled = true // the agent is exit endpoint (loopback only) AND transit
 	cfg.Exit.Routes = []string{"127.0.0.0/8"}
+	cfg.UDP.Enabled = true // … and exit endpoint for UDP associations
 	a, err := agent.New(cfg)
 	must(err)
 	return &c16World{a: a, dir: dir, self: c16ID(0), bufs: map[int]*c16Buf{}, conns: map[int]*peer.Connection{}}
